@@ -90,6 +90,7 @@ structure Env where
   skipWs : Bool := true
   longest : Bool := true
   grammarOrder : Bool := true
+  custom : Option (Nat × Nat) := none   -- adversarial user lexer (mode, seed) instead of StringLexer
 
 def skip (env : Env) (ctx : Ctx) : Ctx :=
   let rest := env.input.drop ctx.pos.pos
@@ -109,10 +110,30 @@ def tokenIter (env : Env) (pos : Pos) : List (Nat × Bool) → List Tok
       tk :: (if fin then [] else tokenIter env pos rest)
     | none => tokenIter env pos rest
 
-/-- `StringLexer::next_tokens` -/
+/-- byte length of the UTF-8 character starting with byte `b` -/
+def utf8Len (b : Nat) : Nat :=
+  if b < 0x80 then 1 else if b < 0xE0 then 2 else if b < 0xF0 then 3 else 4
+
+def mkTok (env : Env) (kind : Nat) (pos : Pos) (len : Nat) : Tok :=
+  ⟨kind, (pos.pos, len), ⟨pos, posAfter (sliceOf env.input (pos.pos, len)) pos⟩⟩
+
+/-- the adversarial user lexers of `harness/dyn/src/run.rs` (they ignore the expected set) -/
+def customTokens (env : Env) (mode seed : Nat) (pos : Pos) : List Tok :=
+  if mode = 0 then [mkTok env 0 pos 0]
+  else
+    match env.input.drop pos.pos with
+    | [] => if mode = 1 then [mkTok env 0 pos 0] else []
+    | b :: _ =>
+      let kind := if env.g.nterms > 1 then 1 + ((pos.pos * 7 + seed) % (env.g.nterms - 1)) else 0
+      [mkTok env kind pos (utf8Len b)]
+
+/-- `Lexer::next_tokens`: `StringLexer` or a user lexer -/
 def lexNext (env : Env) (ctx : Ctx) (expected : List (Nat × Bool)) : Ctx × List Tok :=
-  let ctx := if env.skipWs then skip env ctx else ctx
-  (ctx, tokenIter env ctx.pos expected)
+  match env.custom with
+  | some (mode, seed) => (ctx, customTokens env mode seed ctx.pos)
+  | none =>
+    let ctx := if env.skipWs then skip env ctx else ctx
+    (ctx, tokenIter env ctx.pos expected)
 
 def maxLen (toks : List Tok) : Nat := toks.foldl (fun m t => max m t.val.2) 0
 
@@ -187,7 +208,7 @@ def firstLay : Tree → Option Slice
 def reduceSpan (removed : List StackItem) (ctxSpan : Span) : Span :=
   match removed.getLast?, removed.head? with
   | some first, some last => ⟨first.span.s, last.span.e⟩
-  | _, _ => ⟨ctxSpan.s, ctxSpan.s⟩
+  | _, _ => ⟨ctxSpan.e, ctxSpan.e⟩
 
 /-- layout of a nonterminal node = layout of its first child (`TreeBuilder::reduce_action`) -/
 def childrenLay (children : List Tree) : Option Slice :=
@@ -201,7 +222,7 @@ def step (env : Env) (nt : Ctx → Ctx × Outcome Tok) (c : Cfg) : StepOut :=
   | none => .stop c.ctx (.panic "stack.last().unwrap()")
   | some state =>
   match env.t.cell state c.tok.kind with
-  | [] => .stop c.ctx (.panic "actions[0]")
+  | [] => .stop c.ctx (.err .noAction)
   | act :: _ =>
     match act with
     | .shift s' =>
@@ -210,7 +231,7 @@ def step (env : Env) (nt : Ctx → Ctx × Outcome Tok) (c : Cfg) : StepOut :=
       let ctx := { c.ctx with span := sp, pos := newPos, state := s' }
       let stack := ⟨s', sp⟩ :: c.stack
       let res := Tree.leaf c.tok.kind c.tok.span c.tok.val ctx.lay :: c.res
-      liftTok (c.tok :: c.hist) stack res c.slice (nt ctx) none
+      liftTok (c.tok :: c.hist) stack res c.slice (nt { ctx with lay := none }) none
     | .reduce p len =>
       if c.stack.length < len then .stop c.ctx (.panic "split_off")
       else
